@@ -21,8 +21,6 @@ def run(ctx):
     res.assumptions = ["observation at the client sockets with the barrier protocol (DESIGN 2.3)",
                        "snapshot hook reads the state under the server's own lock",
                        "reference model of DESIGN 2.4 encodes the statement; unspecified choices are resynchronised, not judged"]
-    # every rank against every rank, deterministically: KICK, TOPIC on +t, INVITE on +i, MODE +v by each of 8 rank sets
-    common.run_rank_matrix(ctx, res, ("C08",))
     return res
 
 
